@@ -52,7 +52,7 @@ def gen_atom(rng, simple_only=False):
     t = lambda: rng.randint(1, 6)
     kinds = list(SIMPLE) if simple_only else list(SIMPLE) + ["d_is_the_e", "e_le_sub_an", "exists_an", "d_in_conc_psubs", "forall_subs",
                                                              "forall_items_an", "forall_subs_vs_d", "or", "not", "dn_le_an_flat",
-                                                             "p_has_elem", "pred_default"]
+                                                             "p_has_elem", "pred_default", "forall_over_query_with_forall"]
     k = rng.choice(kinds)
     if k == "pk":
         return ["pk", op(), rng.randint(0, 4)]
@@ -68,6 +68,8 @@ def gen_atom(rng, simple_only=False):
         return ["pred_default", rng.choice([None, None, 1, 3, 5])]
     if k == "p_has_elem":
         return ["p_has_elem", t()]
+    if k == "forall_over_query_with_forall":
+        return [k, sorted(rng.sample(range(6), rng.randint(1, 2)))]
     if k in ("e_le_sub_an", "exists_an"):
         return [k, t()]
     if k in ("forall_subs", "forall_items_an"):
@@ -85,7 +87,14 @@ def gen_case(rng):
     atoms = [gen_atom(rng) for _ in range(rng.randint(1, 3))]
     with_d = any(uses_d(a) for a in atoms)
     sel = rng.choice([["p", "e", "d"], ["e", "d"], ["d"], ["p", "d"], ["d", "e"]] if with_d else [["p", "e"], ["e"], ["p"], ["e", "p"]])
-    return {"world": gen_world(rng), "c0": ["pk", rng.choice([">=", ">", "!="]), rng.randint(0, 2)],
+    world = gen_world(rng)
+    for a in atoms:
+        if a[0] == "forall_over_query_with_forall":
+            # (C10 speaks about non-empty universal domains: the named elements are taken from one parent, so at least that
+            #  parent holds them all)
+            items = rng.choice([p["items"] for p in world["parents"] if p["items"]])
+            a[1] = sorted(rng.sample(items, min(len(items), rng.randint(1, 2))))
+    return {"world": world, "c0": ["pk", rng.choice([">=", ">", "!="]), rng.randint(0, 2)],
             "c1": rng.choice([["en", ">=", 1], ["en", rng.choice([">", "<=", "!="]), rng.randint(1, 5)],
                               ["e_in_tuple", sorted(rng.sample(range(1, 7), rng.randint(2, 5)))],
                               # the element's condition written inside a sub-query over the already bound parent
@@ -145,6 +154,11 @@ def holds(a, p, x, d, es):
         return all(OPS[a[1]](b.n, a[2]) for b in p.items)
     if k == "forall_subs_vs_d":
         return all(OPS[a[1]](u.n, d.n) for u in x.subs)
+    if k == "forall_over_query_with_forall":
+        # for_all(sub, in_(e, sub.items)) with sub = an(entity(p2, for_all(u2, in_(u2, p2.items)))), u2 over the named elements:
+        # the element is in every parent that holds every named element
+        good = [p2 for p2 in CUR_PS if all(any(es[j] is y for y in p2.items) for j in a[1])]
+        return all(any(x is y for y in p2.items) for p2 in good)
     if k == "or":
         return holds(a[1], p, x, d, es) or holds(a[2], p, x, d, es)
     if k == "not":
@@ -152,7 +166,12 @@ def holds(a, p, x, d, es):
     raise ValueError(a)
 
 
+CUR_PS = None
+
+
 def expected(case, es, ps):
+    global CUR_PS
+    CUR_PS = ps
     with_d = any(uses_d(a) for a in case["atoms"])
     rows = []
     for pi, p in enumerate(ps):
@@ -233,6 +252,11 @@ def build(case, es, ps, quant="an"):
             if k == "forall_subs_vs_d":
                 u = flatten(e.subs)
                 return for_all(u, OPS[a[1]](u.n, d.n))
+            if k == "forall_over_query_with_forall":
+                p2 = let(Par, ps)
+                u2 = let(E, [es[j] for j in a[1]])
+                sub = an(entity(p2, for_all(u2, in_(u2, p2.items))))
+                return for_all(sub, in_(e, sub.items))
             if k == "or":
                 return or_(sym(a[1]), sym(a[2]))
             if k == "not":
@@ -313,7 +337,7 @@ def check(c, ctx):
 
 
 FEATURE_TAGS = {
-    "C10": {"forall_subs", "forall_items_an", "forall_subs_vs_d"},
+    "C10": {"forall_subs", "forall_items_an", "forall_subs_vs_d", "forall_over_query_with_forall"},
     "C15": {"d_is_the_e", "e_le_sub_an", "exists_an", "dn_le_an_flat", "p_has_elem", "forall_items_an", "en_in_subquery"},
     "C16": None,        # every IX query unnests a collection
     "C17": {"d_in_conc_p", "d_in_conc_esubs", "d_in_conc_psubs"},
